@@ -13,7 +13,7 @@ use std::hash::Hash;
 use std::sync::OnceLock;
 use std::{collections::HashMap, io::Write};
 
-use super::CrateTypes;
+use super::{doc_lines, CrateTypes};
 
 use convert_case::{Case, Casing};
 use itertools::Itertools;
@@ -547,7 +547,7 @@ impl Python {
                 } else {
                     comments
                         .iter()
-                        .flat_map(|v| v.split('\n'))
+                        .flat_map(|v| doc_lines(v))
                         .map(|v| format!("{}# {}", indent, v))
                         .collect::<Vec<String>>()
                         .join("\n")
